@@ -66,6 +66,10 @@ type Plan struct {
 	PreemptN  int    `json:"preempt_n,omitempty"`
 	PoolEvict bool   `json:"pool_evict,omitempty"`
 
+	// Twin, when set, is a second instance of the system built next to the
+	// first one in the same run (isolated runs).
+	Twin *Plan `json:"twin,omitempty"`
+
 	Chain []string       `json:"chain,omitempty"` // stage chain (thorough tier)
 	Extra map[string]int `json:"extra,omitempty"`
 }
@@ -120,6 +124,7 @@ func (p *Plan) Shrink() []*Plan {
 			out = append(out, q)
 		}
 	}
+	add(func(q *Plan) bool { ok := q.Twin != nil; q.Twin = nil; return ok })
 	// remove faults first
 	add(func(q *Plan) bool { ok := q.CancelStep >= 0; q.CancelStep = -1; return ok })
 	add(func(q *Plan) bool { ok := q.CancelMs > 0; q.CancelMs = 0; return ok })
